@@ -297,7 +297,12 @@ def _empty_format(cx, repo):
     tf_set = cx.func(REL, "PPTableFormat._set_parsed_fmt", "R13d")
     set_fmt = cx.func(REL, "_PPTableImpl.set_fmt", "R13d")
     # columns == "" and other given -> clones of other's columns
-    st = [s for s in walk_local(rs_set) if isinstance(s, ast.Assign) and is_name(s.targets[0], "columns") and isinstance(s.value, ast.ListComp)]
+    st = [s for s in walk_local(rs_set) if isinstance(s, ast.Assign) and is_name(s.targets[0], "columns") and isinstance(s.value, ast.ListComp)
+          and isinstance(s.value.elt, ast.Call) and call_name(s.value.elt) == "clone"]
+    if not st:
+        # the same as a loop:  for c in other.columns: columns.append(c.clone())
+        loops_ = [l for l in walk_local(rs_set) if isinstance(l, ast.For) and norm(l.iter) == "other.columns"]
+        cx.need(not loops_ or len(loops_) > 1, "R13d", rs_set, "columns of the reference format are copied by a loop: form not analysed")
     ok = False
     if st:
         v = st[0].value
